@@ -1,9 +1,11 @@
 // Legs (ii) and (iii): arbitrary / mutated bytes into every decoder.
-//   bin:<Kind>   wire.ReadBinary with limits {1, len/2, len, 1MB}: no panic, err==nil => n<=limit,
-//                bytes pulled from the reader == n and <= limit+slack, allocation bounded
-//   msg:<r>      the reactors' DecodeMessage (fixed internal limit): no panic, allocation bounded
-//   json:<Kind>  wire.ReadJSON: no panic, allocation bounded
-//   rlp:<type>   in-tree eth/rlp vs reference go-ethereum rlp: no panic, same accept/reject, value, encoding
+//
+//	bin:<Kind>   wire.ReadBinary with limits {1, len/2, len, 1MB}: no panic, err==nil => n<=limit,
+//	             bytes pulled from the reader == n and <= limit+slack, allocation bounded
+//	msg:<r>      the reactors' DecodeMessage (fixed internal limit): no panic, allocation bounded
+//	json:<Kind>  wire.ReadJSON: no panic, allocation bounded
+//	rlp:<type>   in-tree eth/rlp vs reference go-ethereum rlp: no panic, same accept/reject, value, encoding
+//
 // plus the seed-corpus replay (quick tier) and the native fuzz targets (thorough tier).
 package c18
 
